@@ -269,6 +269,7 @@ fn mechanism_of(name: &str, user_names: &[String]) -> &'static str {
 /// report every distinct (kind, class, mechanism) among the vet errors
 fn report_vet_errors(c: &mut Case, errs: &[(String, u32, String)], go: &str, user_names: &[String], label: &str, src: &str, extra: serde_json::Value) {
     let mut seen = std::collections::BTreeSet::new();
+    let mut found: Vec<(String, String, serde_json::Value)> = Vec::new();
     // a redeclaration is the root cause; the type errors that follow from it are not reported separately
     let has_redecl = errs.iter().any(|(k, _, _)| k == "redeclared");
     for (kind, lineno, msg) in errs {
@@ -299,12 +300,21 @@ fn report_vet_errors(c: &mut Case, errs: &[(String, u32, String)], go: &str, use
         if !seen.insert(sig.clone()) {
             continue;
         }
-        c.violation(
+        found.push((
             sig,
             format!("distinct entities collide / a user name captures a generated one in the Go text: [{}] {} at `{}`", kind, util::truncate(msg, 140), util::truncate(&go_line, 100)),
-            json!({"label": label, "go_line": go_line, "identifier": ident, "source": src, "names": extra,
+            json!({"label": label, "go_line": go_line, "identifier": ident, "source": src, "names": extra.clone(),
                    "vet_errors": errs.iter().take(8).map(|(k,l,m)| json!({"kind":k,"line":l,"msg":m})).collect::<Vec<_>>()}),
-        );
+        ));
+    }
+    // an identifier captured by a generated name is a root cause like a redeclaration: the unclassified
+    // type errors in the same text follow from it and are not reported on their own
+    let has_root = found.iter().any(|(s, _, _)| s.starts_with("C19:user-name-equals-generated-name") || s.starts_with("C19:redeclared"));
+    for (sig, summary, detail) in found {
+        if has_root && sig.starts_with("C19:invalid-go:") {
+            continue;
+        }
+        c.violation(sig, summary, detail);
     }
 }
 
